@@ -228,7 +228,9 @@ def query_paths():
                 # spellings a root-relative file path can really have
                 if not p.startswith("/") and PurePosixPath(p).as_posix() == p and "." not in p.split("/") and ".." not in p.split("/"):
                     out.append(p)
-        QUERY_PATHS = out + ["a/b/c.a", "x/y/a", "ab/ba", "a.a", "b.a/a", "a/b/a/b", "a/x.a", "a/c.a", "a/b/x/y", "a/x/b/y", "a/x/b", "a/bb", "b/a/b/a"]
+        QUERY_PATHS = out + ["a/b/c.a", "x/y/a", "ab/ba", "a.a", "b.a/a", "a/b/a/b", "a/x.a", "a/c.a", "a/b/x/y", "a/x/b/y", "a/x/b", "a/bb", "b/a/b/a",
+                             # a line feed is a character like any other
+                             "a\nb", "a/a\nb.a", "a\n/b", "\na", "a/b\n"]
     return QUERY_PATHS
 
 
@@ -307,11 +309,17 @@ def run_lint(case, ctx, res):
     attached = con.attach("reuse.global_licensing", "matches", cond, cls_name="AnnotationsItem")
     try:
         names = ["a.py", "b.py", "x.a", "dir/a.py", "dir/sub/a.py", "dir/b.txt", "*.py", "st*r.txt", "dir/**", "a", "dir/a",
-                 "back\\slash.py", "sp ace.py", "dir/sub/deep/er.py", "ab.py", "xa", "dir/xa"]
+                 "back\\slash.py", "sp ace.py", "dir/sub/deep/er.py", "ab.py", "xa", "dir/xa", "dir/two\nlines.py", "line\nfeed.py"]
+        # the REUSE.toml sits in the project root or - as the project's only one - in a sub-directory: its globs speak about paths
+        # relative to *its* directory, and say nothing about files outside of it
+        base_rel = ["", "", "pkg", "deep/er/pkg"][case["k"] % 4]
+        base = root / base_rel if base_rel else root
         for nme in names:
-            p = root / nme
-            p.parent.mkdir(parents=True, exist_ok=True)
-            p.write_text("content\n")
+            for top in {base, root}:
+                p = top / nme
+                p.parent.mkdir(parents=True, exist_ok=True)
+                p.write_text("content\n")
+        res.cell("lint:toml-in:" + (base_rel or "root"))
         globs = ["*.py", "**/*.py", "**/a", "dir/*", "dir/**", "\\*.py", "st\\*r.txt", "**", "*", "dir/**/a.py", "a*", "*a",
                  "back\\\\slash.py", "sp ace.py", "**/er.py", "**a", "dir/*/a.py"]
         rng.shuffle(globs)
@@ -320,7 +328,7 @@ def run_lint(case, ctx, res):
         for j, g in enumerate(chosen):
             toml += ["[[annotations]]", "path = " + json.dumps(g), 'precedence = "aggregate"',
                      f'SPDX-FileCopyrightText = "2020 Holder{j}"', f'SPDX-License-Identifier = "LicenseRef-G{j}"', ""]
-        (root / "REUSE.toml").write_text("\n".join(toml))
+        (base / "REUSE.toml").write_text("\n".join(toml))
         r = run_cli(["--no-multiprocessing", "--root", str(root), "lint", "--json"], cwd=str(root))
         try:
             data = json.loads(r.stdout)
@@ -330,6 +338,14 @@ def run_lint(case, ctx, res):
         for f in data["files"]:
             path = f["path"]
             got = {x["value"] for x in f["spdx_expressions"]}
+            if base_rel:
+                if not path.startswith(base_rel + "/"):
+                    res.n += 1
+                    if got:
+                        res.violation("lint-attribution-outside-the-toml-directory", f"{path!r} lies outside {base_rel}/ but is attributed {sorted(got)} "
+                                      f"by {base_rel}/REUSE.toml", path=path, globs=chosen)
+                    continue
+                path = path[len(base_rel) + 1:]
             # last matching table wins within one REUSE.toml
             exp_n = exp_w = None
             for j, g in enumerate(chosen):
